@@ -1,0 +1,25 @@
+//go:build verif
+
+package repo
+
+// Contracts checked by /verif (govc). Comment-only file: it adds no code.
+
+//@ ghost func wantC(version string) string = ite(version == "", "*", version)
+//@ ghost func okEntry(c string, cv *ChartVersion) bool = parses(cv.Metadata.Version) && sat(c, cv.Metadata.Version)
+//@ ghost func wellFormed(vs ChartVersions) bool = forall a int :: 0 <= a && a < len(vs) ==> vs[a] != nil && vs[a].Metadata != nil
+//@ ghost func sortedDesc(vs ChartVersions) bool = forall a, b int :: 0 <= a && a < b && b < len(vs) && parses(vs[a].Metadata.Version) && parses(vs[b].Metadata.Version) ==> rank(vs[a].Metadata.Version) >= rank(vs[b].Metadata.Version)
+
+//@ ghost func entriesOf(i IndexFile, name string) ChartVersions = ite(has(i.Entries, name), i.Entries[name], nil)
+
+//@ func IndexFile.Get
+//@   props C18
+//@   requires has(i.Entries, name) ==> wellFormed(i.Entries[name]) && sortedDesc(i.Entries[name])
+//@   ensures [member] err == nil ==> exists j int :: 0 <= j && j < len(entriesOf(i, name)) && result == entriesOf(i, name)[j]
+//@   ensures [exact] err == nil && version != "" && (exists j int :: 0 <= j && j < len(entriesOf(i, name)) && entriesOf(i, name)[j].Metadata.Version == version) ==> result.Metadata.Version == version
+//@   ensures [best] err == nil && !(version != "" && (exists j int :: 0 <= j && j < len(entriesOf(i, name)) && entriesOf(i, name)[j].Metadata.Version == version)) ==> okEntry(wantC(version), result) && (forall j int :: 0 <= j && j < len(entriesOf(i, name)) && okEntry(wantC(version), entriesOf(i, name)[j]) ==> rank(entriesOf(i, name)[j].Metadata.Version) <= rank(result.Metadata.Version))
+//@   ensures [none] err != nil && parsesC(wantC(version)) ==> forall j int :: 0 <= j && j < len(entriesOf(i, name)) ==> !(version != "" && entriesOf(i, name)[j].Metadata.Version == version) && !okEntry(wantC(version), entriesOf(i, name)[j])
+//@   ensures [result-iff] (err == nil) == (result != nil)
+//@   loop 1 invariant forall j int :: 0 <= j && j < #iter ==> vs[j].Metadata.Version != version
+//@   loop 2 invariant forall j int :: 0 <= j && j < #iter ==> !okEntry(wantC(version), vs[j])
+//@   loop 2 invariant constraint != nil && consOf(*constraint) == wantC(version)
+//@   loop 2 invariant version != "" ==> forall j int :: 0 <= j && j < len(vs) ==> vs[j].Metadata.Version != version
